@@ -7,7 +7,7 @@ PR=facts.Program(sys.argv[1])
 tier='quick'
 for pid in sys.argv[2:]:
     m=importlib.import_module('rules.'+pid)
-    ck=engine.Check(pid,tier,PR)
+    ck=engine.Check(pid,tier,PR); ck.repo='/repo'
     try:
         m.run(ck)
     except Exception as ex:
